@@ -1186,7 +1186,7 @@ fn fresh_process_only(
         stalled_stdout_reader_ms: 0,
     };
     let mut r = procworld::run(&spec, &scratch, "c10-fresh")?;
-    r.stderr = procworld::strip_sgr(&r.stderr);
+    r.stderr = procworld::neutralise_panic_thread_id(&procworld::strip_sgr(&r.stderr));
     stats.inc("fault.configured.process_spawn");
     stats.inc("fault.fired.process_spawn");
     stats.inc("count.process_arm.fresh_process_only");
@@ -1237,12 +1237,8 @@ fn process_arm(
                 stalled_stdout_reader_ms: 0,
             };
             let mut r = procworld::run(&spec, &scratch, &format!("c10-{}-{}", sub, i))?;
-            r.stderr = procworld::strip_sgr(&r.stderr);
+            r.stderr = procworld::neutralise_panic_thread_id(&procworld::strip_sgr(&r.stderr));
             r.stdout = procworld::strip_sgr(&r.stdout);
-            if r.code == Some(101) {
-                // a panic message carries the thread id of the process
-                r.stderr.clear();
-            }
             stats.inc("fault.configured.process_spawn");
             stats.inc("fault.fired.process_spawn");
             stats.inc(&format!("count.process_arm.{}", sub));
@@ -1295,7 +1291,7 @@ fn process_arm(
             stalled_stdout_reader_ms: 0,
         };
         let mut r = procworld::run(&spec, &scratch, &format!("c10-{}", i))?;
-        r.stderr = procworld::strip_sgr(&r.stderr);
+        r.stderr = procworld::neutralise_panic_thread_id(&procworld::strip_sgr(&r.stderr));
         stats.inc("fault.configured.process_spawn");
         stats.inc("fault.fired.process_spawn");
         let spec_json = J::obj(vec![
